@@ -1,6 +1,7 @@
 package main
 
 import (
+	"go/token"
 	"fmt"
 	"strings"
 	"go/ast"
@@ -451,6 +452,30 @@ func verifyNoGlobalWrites(w *World, pi *PackageInv) *FuncResult {
 						}
 					}
 				}
+				// the address of a package-level variable (or of a part of it) may only be read
+				// through: handing it to a call, storing it or boxing it lets other code write it
+				for _, op := range ins.Operands(nil) {
+					if op == nil || *op == nil {
+						continue
+					}
+					if g := globalRoot(*op); g != nil && g.Pkg == w.pkg && !strings.HasPrefix(g.Name(), "init$") {
+						switch x := ins.(type) {
+						case *ssa.UnOp:
+							if x.Op == token.MUL {
+								continue // load
+							}
+						case *ssa.FieldAddr, *ssa.IndexAddr:
+							continue // still an address: judged at its own uses
+						case *ssa.Store:
+							if x.Addr == *op {
+								continue // a store through it is reported above
+							}
+						case *ssa.DebugRef:
+							continue
+						}
+						bad = append(bad, "Global#"+g.Name()+" (address passed to "+strings.SplitN(ins.String(), "(", 2)[0]+")")
+					}
+				}
 			}
 		}
 		goal := "true"
@@ -464,4 +489,24 @@ func verifyNoGlobalWrites(w *World, pi *PackageInv) *FuncResult {
 	}
 	fr.Enc, fr.Obls, fr.Lines = e, e.obls, len(e.lines)
 	return fr
+}
+
+// globalRoot: the package-level variable an address value points into, if any.
+func globalRoot(v ssa.Value) *ssa.Global {
+	for i := 0; i < 8; i++ {
+		switch x := v.(type) {
+		case *ssa.Global:
+			return x
+		case *ssa.FieldAddr:
+			v = x.X
+		case *ssa.IndexAddr:
+			if _, isPtr := x.X.Type().Underlying().(*types.Pointer); !isPtr {
+				return nil
+			}
+			v = x.X
+		default:
+			return nil
+		}
+	}
+	return nil
 }
